@@ -41,6 +41,9 @@ CHECKS["C12"] = dict(cat="translation_validation", tech="symbolic execution of t
 CHECKS["C15"] = dict(cat="other", tech="SMT (z3) identities on the traced IR: one-step stability function per scheme and backend, exact cubic consistency of the traced cable vector field, steady-state fixed point",
    text="A limit is not an SMT assertion; z3 proves on the traced IR the algebraic facts from which the textbook orders follow (stability functions of bwd/CN/fwd for every backend including the unit factors, exactness of the traced second difference for cubic profiles with sealed-end flux rows, steady state as fixed point). The Lax argument to the stated orders and the analytic resistance comparisons are outside the solver.",
    note="exact real arithmetic; Lax equivalence theorem trusted; stability from C02; uniform cables only", ref="6 C15")
+CHECKS["C09"] = dict(cat="other", tech="SMT (z3) scheme-row identities on the traced one-step IR of networks with harness-assembled synaptic terms (compositional cut on the traced per-synapse currents); DAG equality for creation orders / zero conductance; symbol identity for data_set reach",
+   text="For each wiring (autapse, fan-in, two interleaved synapse types, duplicate pairs) z3 proves for all symbolic voltages, states, geometry and per-edge parameters that the traced new voltages satisfy the update equations in which each synapse reads the harness-requested pre compartment, injects into the requested post compartment with that compartment's area and currents add; all creation orders give the identical DAG; zero conductance equals no synapses; data_set through three kinds of edge views reaches exactly the requested rows.",
+   note="exact real arithmetic; rows are claimed for executions without division by zero (synaptic slopes are unconstrained atoms); point cells; secant linearisation taken from the code", ref="6 C09")
 NA = {}
 checks = []
 for pid, c in CHECKS.items():
